@@ -62,15 +62,24 @@ def part_a(tier, seed, ev, rep):
 
 def part_b(tier, seed, ev, rep):
     # (processes, sessions each, injected failures, library created by the workers themselves - racing constructors)
-    runs = ([(8, 40, True, False), (6, 30, False, False)] + [(8, 4, False, True)] * 4 if tier == "quick" else
-            [(16, 300, True, False), (12, 200, True, False), (8, 400, False, False)] + [(12, 5, True, True)] * 20)
+    # (processes, sessions each, injected failures, library created by the workers themselves - racing constructors,
+    #  (workers killed with SIGKILL at random moments, workers that die in the middle of one of their own write() calls))
+    runs = ([(8, 40, True, False, 0), (6, 30, False, False, 0)] + [(8, 4, False, True, 0)] * 4 + [(8, 60, False, False, (2, 2))] * 2
+            if tier == "quick" else
+            [(16, 300, True, False, 0), (12, 200, True, False, 0), (8, 400, False, False, 0)] + [(12, 5, True, True, 0)] * 20
+            + [(10, 80, True, False, (3, 3))] * 12)
     traces = []
     wd = tlc.workdir("c04mp")
     try:
-        for i, (nproc, nsess, faults, fresh) in enumerate(runs):
+        for i, (nproc, nsess, faults, fresh, kills) in enumerate(runs):
             evs = run_schedule(wd / f"run{i}", nproc, nsess, seed * 10 + i, faults=faults, fresh=fresh,
+                               kills=kills[0] if kills else 0, torn=kills[1] if kills else 0,
                                timeout=300 if tier == "quick" else 1200)
-            traces.append({"tid": f"mp{i}-n{nproc}-s{nsess}" + ("-fresh" if fresh else ""), "ev": evs})
+            victims = []
+            if kills:
+                evs, victims = evs
+            traces.append({"tid": f"mp{i}-n{nproc}-s{nsess}" + ("-fresh" if fresh else "") + (f"-kill{len(victims)}" if kills else ""),
+                           "victims": victims, "ev": evs})
     finally:
         shutil.rmtree(wd, ignore_errors=True)
     verdicts, results = T.validate("SessionsTrace", traces, dict(spec="TraceSpec", invariants=("WriterExclusive",)),
